@@ -19,9 +19,13 @@ var (
 )
 
 func genOld(r *hx.Rng) string {
-	switch r.Intn(5) {
+	switch r.Intn(8) {
 	case 0, 1:
 		return "absent"
+	case 2:
+		return "dangling"
+	case 3:
+		return "link:" + strconv.Itoa(hx.Pick(r, []int{0, 1, 70000})) + ":" + hx.Pick(r, modes)
 	default:
 		b := bufSize()
 		n := hx.Pick(r, []int{0, 1, 5, 1000, b - 1, b, b + 1, 100000, r.Intn(3000)})
@@ -100,7 +104,9 @@ func (wfArea) Gen(r *hx.Rng, n int, _ string, emit func(string)) {
 	}
 }
 
-func (wfArea) Run(line string) string {
+func (wfArea) Run(line string) string { return withDeadline(func() string { return wfRun(line) }) }
+
+func wfRun(line string) string {
 	f := strings.Fields(line)
 	if len(f) != 7 || f[0] != "wf" {
 		return "bad-op"
@@ -108,7 +114,7 @@ func (wfArea) Run(line string) string {
 	cbMode := f[6]
 	old, um, mode, pieces, fault := parseOld(f[1]), octal(f[2]), octal(f[3]), parsePieces(f[4]), f[5]
 	dir, dst := setup(old)
-	defer os.RemoveAll(dir)
+	defer cleanup(dir)
 	prev := syscall.Umask(int(um))
 	defer syscall.Umask(prev)
 	oldState := fileState(dst)
@@ -156,12 +162,16 @@ func (wfArea) Run(line string) string {
 		}
 	}
 	err := func() (err error) {
+		panicked := true // recover() alone cannot tell panic(nil) (under GODEBUG=panicnil=1) from no panic
 		defer func() {
-			if r := recover(); r != nil {
+			if panicked {
+				_ = recover()
 				err = errPanicked
 			}
 		}()
-		return perform("wf", dst, mode, pieces, cbFail, cbMode, after)
+		err = perform("wf", dst, mode, pieces, cbFail, cbMode, after)
+		panicked = false
+		return err
 	}()
 	restore()
 	rs := rd.finish()
@@ -175,7 +185,8 @@ func (wfArea) Run(line string) string {
 	if fault == "rename:DIR" && (res == "errno:EISDIR" || res == "errno:EEXIST" || res == "errno:ENOTEMPTY") {
 		res = "errno:DIR" // which errno rename(file, directory) gives depends on the file system
 	}
-	return fmt.Sprintf("res=%s dst=%s extra=%d mid=%s reader=%s", res, fileState(dst), len(extras(dir)), m, rs)
+	return fmt.Sprintf("res=%s dst=%s extra=%d mid=%s reader=%s%s", res, fileState(dst), len(extras(dir)), m, rs,
+		targetCheck(dir, old))
 }
 
 // ---------------------------------------------------------------------------------------------- area api
@@ -187,6 +198,8 @@ type apiArea struct {
 	off      int
 	umask    uint32
 	oldDir   bool
+	old      oldSpec
+	nhist    int
 }
 
 func (*apiArea) Gen(r *hx.Rng, n int, _ string, emit func(string)) {
@@ -223,10 +236,12 @@ func (a *apiArea) obs(res string) string {
 	} else if len(ex) > 1 {
 		t = "MULTI"
 	}
-	return res + " dst=" + fileState(a.dst) + " tmp=" + t
+	return res + " dst=" + fileState(a.dst) + " tmp=" + t + targetCheck(a.dir, a.old)
 }
 
-func (a *apiArea) Run(line string) string {
+func (a *apiArea) Run(line string) string { return withDeadline(func() string { return a.run(line) }) }
+
+func (a *apiArea) run(line string) string {
 	f := strings.Fields(line)
 	if len(f) == 0 {
 		return "bad-op"
@@ -237,10 +252,12 @@ func (a *apiArea) Run(line string) string {
 			a.f = nil
 		}
 		if a.dir != "" {
-			os.RemoveAll(a.dir)
+			cleanup(a.dir)
 		}
-		a.dir, a.dst = setup(parseOld(f[1]))
+		a.old = parseOld(f[1])
+		a.dir, a.dst = setup(a.old)
 		a.oldDir = f[1] == "dir"
+		a.nhist++
 		a.umask = octal(f[2])
 		a.off = 0
 		return "reset"
@@ -256,9 +273,19 @@ func (a *apiArea) Run(line string) string {
 			return "bad-op"
 		}
 		var err error
-		a.f, err = safe.CreateWithMode(a.dst, os.FileMode(octal(f[1])))
+		if m := octal(f[1]); m == 0o644 && a.nhist%2 == 0 {
+			a.f, err = safe.Create(a.dst) // the wrapper fixes the mode to 0644
+		} else {
+			a.f, err = safe.CreateWithMode(a.dst, os.FileMode(m))
+		}
 		if err == nil && a.f.OriginalName() != a.dst {
 			return a.obs("BAD:OriginalName")
+		}
+		if err == nil { // Name() is the temporary file: beside the destination, not the destination itself
+			ex := extras(a.dir)
+			if n := a.f.Name(); filepath.Dir(n) != a.dir || n == a.dst || len(ex) != 1 || filepath.Base(n) != ex[0] {
+				return a.obs("BAD:Name")
+			}
 		}
 		return a.obs(resCode(err))
 	case "write":
